@@ -5,11 +5,19 @@ from mc import core, det, domains, sse
 PROPERTY = 'C01'
 ENGINE = 'E1 bounded-exhaustive enumeration of (scheme, configuration point, list-length profile, keyword order, content relation)'
 LEVEL = 'model_checking'
+DIRECTED_ADDITIONS = 'many-keyword profiles, KiB keywords, mixed-length identifiers (PiBas), aliased posting lists, empty posting lists (refused or correct), bytes-like keyword objects, constructor styles, rebuild under the same key, per-scheme sweep'      # members added during the seeded-change campaign (DESIGN 7); counted under their own vacuity counters
+
 MAXLEN = {'quick': 4200, 'thorough': 9000}
 CHUNK = 60
 
 
 def describe(tier):
+    d = _describe(tier)
+    d['rule'] = d['rule'] + ' Directed additions: ' + DIRECTED_ADDITIONS + '.'
+    return d
+
+
+def _describe(tier):
     n = 8 if tier == 'quick' else 12
     return {
         'rule': 'case = (scheme, configuration point of G(S), list-length profile, keyword length, content relation); all 9 schemes x '
